@@ -6,6 +6,8 @@ package ops
 
 import (
 	"fmt"
+	"os"
+	"strings"
 	"math/big"
 	"math/rand"
 	"time"
@@ -100,6 +102,9 @@ type World struct {
 	Dead      bool // a panic escaped BeginBlock/EndBlock/Commit
 	ConsensusHalt string // CometBFT-side validation refused a validator update list
 	MonitorPanics []string
+	// IgnoreValSetErr: keep driving the application after the consensus-side model refused an update list
+	// (used by workloads that deliberately reach zero total power)
+	IgnoreValSetErr bool
 	AVSAddr   string
 }
 
@@ -215,6 +220,9 @@ func (w *World) deliver(st *Step, bz []byte, err error) {
 	if res.Code != 0 {
 		st.Fail = true
 		st.Err = fmt.Sprintf("code %d/%s: %s", res.Code, res.Codespace, trunc(res.Log, 300))
+		if os.Getenv("VERIF_DEBUG_PANIC") != "" && strings.Contains(res.Log, "recovered") {
+			fmt.Println("PANIC-LOG:", trunc(res.Log, 3000))
+		}
 		return
 	}
 	st.Ack = true
@@ -513,7 +521,7 @@ func (w *World) Advance(dt time.Duration) bool {
 		return false
 	}
 	w.NextBlock(dt)
-	if w.C.ValSetErr != nil {
+	if w.C.ValSetErr != nil && !w.IgnoreValSetErr {
 		// CometBFT would refuse this update list (consensus failure); the history ends here and the
 		// engines report it (C06 judges it).
 		w.Dead = true
@@ -614,5 +622,37 @@ func (w *World) GovStep(kind string, msg sdk.Msg) *Step {
 		write()
 		return nil
 	})
+	return w.finish(st)
+}
+
+// RawTxStep delivers arbitrary transaction bytes as a recorded step.
+func (w *World) RawTxStep(kind string, bz []byte, p map[string]string, extra interface{}) *Step {
+	st := w.newStep(kind, "cosmos")
+	for k, v := range p {
+		st.P[k] = v
+	}
+	st.Extra = extra
+	w.deliver(st, bz, nil)
+	return w.finish(st)
+}
+
+// CheckTxStep runs CheckTx (or ReCheckTx) on the bytes as a recorded step; snapshots are of the deliver state
+// (which CheckTx must not touch) - monitors needing the check state read it themselves.
+func (w *World) CheckTxStep(kind string, bz []byte, recheck bool, p map[string]string, extra interface{}) *Step {
+	st := w.newStep(kind, "checktx")
+	for k, v := range p {
+		st.P[k] = v
+	}
+	st.Extra = extra
+	n := len(w.C.Panics)
+	res, ok := w.C.CheckTx(bz, recheck)
+	if !ok {
+		st.Panic, st.Fail = w.C.Panics[n].Value, true
+	} else if res.Code != 0 {
+		st.Fail = true
+		st.Err = fmt.Sprintf("code %d/%s: %s", res.Code, res.Codespace, trunc(res.Log, 200))
+	} else {
+		st.Ack = true
+	}
 	return w.finish(st)
 }
